@@ -95,6 +95,12 @@ type execTrace struct {
 	selectNs int64
 	doneNs   int64
 	done     bool
+	dry      bool
+	// window the handler said it was about to execute (unix seconds)
+	winS, winE int64
+	// the process died after this execution announced its window and before
+	// it reported an outcome (set by the driver when it handles the crash)
+	cutByCrash bool
 }
 
 type logCapture struct {
@@ -123,6 +129,18 @@ func (c *logCapture) aggregationLatency() {
 	simrt.Sleep(time.Duration(d) * time.Microsecond)
 }
 
+// processDied is called by the driver when the node's process has died: every
+// execution that announced its window and has not reported an outcome was cut
+// down with the process.
+func (c *logCapture) processDied() {
+	for _, tr := range c.tr {
+		if !tr.done && !tr.dry {
+			tr.cutByCrash = true
+		}
+	}
+	c.byTask = map[int]string{}
+}
+
 func (c *logCapture) Write(b []byte) (int, error) {
 	if os.Getenv("VERIF_LOG") != "" {
 		os.Stderr.Write(b)
@@ -134,6 +152,8 @@ func (c *logCapture) Write(b []byte) (int, error) {
 		Message string `json:"message"`
 		ExecID  string `json:"execution_id"`
 		DryRun  bool   `json:"dry_run"`
+		Start   string `json:"start_time"`
+		End     string `json:"end_time"`
 	}
 	if json.Unmarshal(b, &m) != nil {
 		return len(b), nil
@@ -146,7 +166,14 @@ func (c *logCapture) Write(b []byte) (int, error) {
 	case "Executing scheduled continuous query", "Executing continuous query":
 		if m.ExecID != "" {
 			c.byTask[t.ID()] = m.ExecID
-			c.tr[m.ExecID] = &execTrace{selectNs: simrt.SimNow()}
+			tr := &execTrace{selectNs: simrt.SimNow(), dry: m.DryRun}
+			if ws, err := time.Parse(time.RFC3339, m.Start); err == nil {
+				tr.winS = ws.Unix()
+			}
+			if we, err := time.Parse(time.RFC3339, m.End); err == nil {
+				tr.winE = we.Unix()
+			}
+			c.tr[m.ExecID] = tr
 		}
 		if !m.DryRun { // a dry run returns the query text without running it
 			c.aggregationLatency()
